@@ -334,7 +334,7 @@ def check_default_src(ctx):
                    'default rule' if ok else
                    'a rule store is built without the enforcer\'s default '
                    'rule: unknown names would not fall back to it')
-    ctx.floor('C03.DEFAULT-SRC', nsites, 3, 'Rules construction sites')
+    ctx.floor('C03.DEFAULT-SRC', nsites, 1, 'Rules construction sites')
     # Rules.__init__ keeps it; load/from_dict forward it
     rinit = prog.func(RULES + '.__init__')
     tr = Table(prog, rinit)
